@@ -209,6 +209,14 @@ fn walk(dir: &Path, base: &Path, out: &mut Map<String, Value>) {
         let mut entries: Vec<PathBuf> = rd.filter_map(|e| e.ok().map(|e| e.path())).collect();
         entries.sort();
         for p in entries {
+            let is_link = p
+                .symlink_metadata()
+                .map(|m| m.file_type().is_symlink())
+                .unwrap_or(false);
+            if is_link {
+                // never read through a link (the fault-injection cases point links at /dev/full)
+                continue;
+            }
             if p.is_dir() {
                 walk(&p, base, out);
             } else {
@@ -350,7 +358,13 @@ fn main() {
                                 if let Some(parent) = full.parent() {
                                     let _ = fs::create_dir_all(parent);
                                 }
-                                let _ = fs::write(full, content);
+                                // a third element "symlink": the location is a symbolic link to `content`
+                                // (an output location that accepts the open and refuses the data: /dev/full)
+                                if pa.get(2).and_then(|x| x.as_str()) == Some("symlink") {
+                                    let _ = std::os::unix::fs::symlink(content, full);
+                                } else {
+                                    let _ = fs::write(full, content);
+                                }
                             }
                         }
                     }
